@@ -175,6 +175,10 @@ def cost_value(fam, s, a, span, p):
     raise ValueError(fam)
 
 
+# other ways of writing the direction: `mode == MODE_SEGMENTATION_MINIMIZE (0)` / `== MODE_SEGMENTATION_MAXIMIZE (1)`
+MODEVALS = {"min": ["False", "0.0", "np.int64(0)"], "max": ["True", "1.0", "np.int64(1)"]}
+NEITHER = ("2", "None", "'max'")       # equal to neither constant: no direction is requested, [0, N-1] is returned
+
 ACCEPTS3 = ("3", "4d", "var", "obj")
 ACCEPTS4 = ("4", "4d", "var", "obj")
 MODEL_SIG = {"3": "3", "4": "4", "4d": "4d", "var": "4d", "obj": "4d", "nc": "nc"}
@@ -190,6 +194,7 @@ class P(Prop):
         ("TracklibVerif.Props.C12", "TV.C12.table_value", "the in-place D/M table programme (run by the driver) computes the interval recursion opt; D[0,N-1] is the cost of the returned list"),
         ("TracklibVerif.Props.C12", "TV.C12.array_form", "the programme on real 2-D arrays (what the driver runs) returns the same list and tables as the function-table form"),
         ("TracklibVerif.Props.C12", "TV.C12.optimal_bracketed", "T2 without associativity (IEEE doubles): for ANY addition that is monotone for the order, D[0,N-1] is the value of the returned list summed in the order given by the split table, and it is at least as good as EVERY bracketing of EVERY chain"),
+        ("TracklibVerif.Props.C12", "TV.C12.optimal_rounded", "T2 for rounded arithmetic (standard model |fl(a+b)-(a+b)| <= u|a+b|, monotone, no associativity): the EXACT summed cost of the result is within ((1+u)^(N-2)-1) x (absolute costs along the result and along the competitor) of the exact cost of every chain, both directions"),
         ("TracklibVerif.Props.C12", "TV.C12.seg_matrix", "optimalSegmentation's two loops + C + C.T (loop form) build the closed form: cost(track,a,b-1) at a<b<=size-2, symmetric, 2*cost(track,a,a-1) on the diagonal, zero last row/column"),
         ("TracklibVerif.Props.C12", "TV.C12.segmentation_optimal", "T3: with the cost as a total function the result is a chain 0..size-2 optimal in the requested direction for the costs cost(track,a,b-1)"),
         ("TracklibVerif.Props.C12", "TV.C12.segmentation_requested", "T3: optimalSegmentation(track, cost, glob_param, mode) as called from Python (3-/4-parameter functions, defaults, None vs any other parameter value) returns a chain optimal for the criterion evaluated with the REQUESTED parameter"),
@@ -203,7 +208,7 @@ class P(Prop):
     ]
     partial = []
     open_statements = [
-        "IEEE doubles: optimal_bracketed is exact for any monotone addition (doubles without NaN), but it bounds the table value D[0,N-1], i.e. the returned list summed in the bracketing recorded by the split table; that the left-to-right exact sum of the returned list is within rounding of the exact optimum is sampled by the transfer check (slack 1e-9 x absolute costs along the two chains)",
+        "IEEE doubles: optimal_bracketed / optimal_rounded are proved for an abstract rounded addition (monotone, relative error u, no associativity); that binary64 addition satisfies these hypotheses (no NaN, no overflow, u = 2^-53) is assumed, not proved in Lean (Float is opaque), and is what the transfer check on doubles samples, with the same tolerance shape and the generous constant 1e-9",
         "findStopsGlobal: geometry and clock (distance2DTo, minCircle, timestamps) are parameters of the model (predicate tables); the check computes them with exact rational geometry, except the entries where tracklib's minCircle returns None (recorded from the run)",
         "findStopsGlobal optimises stopsReward, which differs from the criterion documented in its source comment / docstring on the two boundaries (a segment lasting exactly `duration`, a circle of diameter exactly `diameter`: reward 0 in the code, a stop according to the documentation and to the function's own final filter); the oracle demands optimality for the documented criterion only where both agree, unless known_findings.json lists class '%s'" % FINDING_STOPS_BOUNDARY,
         "simplify's built-in cost functions (modes 4-6: minimum bounding rectangle geometry) are a parameter of the model; the check evaluates the module's own functions with the requested tolerance",
@@ -355,8 +360,11 @@ class P(Prop):
             M = [[ratstr(v) for v in r] for r in M]
         c = {"kind": "part", "s": s, "mode": rng.choice(["min", "max"]), "C": M}
         r = rng.random()
+        if r > 0.92:
+            # the direction given as another object: equal to one of the constants (True, 1.0, numpy integers) or to neither
+            c["modeval"] = rng.choice(MODEVALS[c["mode"]] + (["2", "None", "'max'"] if rng.random() < 0.3 else []))
         if r < 0.35:
-            forms = ["kw", "verbose", "view", "F"] + (["int"] if integral else []) + (["default"] if c["mode"] == "min" else [])
+            forms = ["kw", "verbose", "view", "F"] + (["int"] if integral else []) + (["default"] if c["mode"] == "min" and not c.get("modeval") else [])
             c["form"] = rng.choice(forms)
         return c
 
@@ -464,6 +472,7 @@ class P(Prop):
             t["scalar"] = case["s"]
             t["domain"] = case.get("dom", "in")
             t["form"] = case.get("form", "pos")
+            t["modeval"] = case.get("modeval", "constant")
         if k == "fe":
             t["api"] = case["api"]
             t["sig"] = case["sig"]
@@ -605,6 +614,8 @@ class P(Prop):
             C = self.nparray(s, M, form)
             before = C.copy()
             m = self.MODES[case["mode"]]
+            if case.get("modeval"):
+                m = eval(case["modeval"], {"np": self.np})
             if form == "default":
                 r = S.optimalPartition(C, verbose=False)
             elif form == "kw":
@@ -825,7 +836,7 @@ class P(Prop):
         k = case["kind"]
         if k in ("sym", "part"):
             s, M = self.matrix(case)
-            m = int(self.MODES[case["mode"]])
+            m = 2 if case.get("modeval") in NEITHER else int(self.MODES[case["mode"]])
             reqs = ["C12.part %s %d %s" % (s, m, self.mtok(s, M))]
             if len(M) <= 10:   # the function form (un-memoised recursion, exponential) is cross-checked up to N = 9
                 reqs.append("C12.opt %s %d %s" % (s, m, self.mtok(s, M)))
@@ -1003,6 +1014,8 @@ class P(Prop):
             return "raised %s (%s)" % (out["err"], out.get("detail"))
         if k in ("sym", "part"):
             s, M = self.matrix(case)
+            if case.get("modeval") in NEITHER:
+                return None if is_chain(out["idx"], len(M) - 1) else "result %s is not a strictly increasing list from 0 to %d" % (out["idx"], len(M) - 2)
             return oracle(self.exact(s, M), len(M) - 1, case["mode"] == "max", out["idx"], 0 if s == "q" else 1e-9)
         if k == "partseq":
             Cx = self.exact(case["s"], case["C"])
@@ -1072,6 +1085,8 @@ class P(Prop):
         if k == "part":
             if case.get("form"):
                 yield {x: case[x] for x in case if x != "form"}
+            if case.get("modeval") and case["modeval"] not in NEITHER:
+                yield {x: case[x] for x in case if x != "modeval"}
             M = case["C"]
             n = len(M)
             if n > 4:
